@@ -7,7 +7,8 @@
 set -u
 ID=$1
 case $ID in
-  C01) TARGETS="fz_envelope fz_parse fz_codec";;
+  C01) TARGETS="fz_structured fz_envelope fz_parse fz_codec";;
+  C14) TARGETS="fz_structured";;
   C02) TARGETS="fz_envelope";;
   C23) TARGETS="fz_parse";;
   C25|C26) TARGETS="fz_json";;
